@@ -14,7 +14,7 @@ import (
 func init() {
 	register("C06", &propDef{
 		Title: "Source addresses print to strings that parse back to the same address",
-		Rules: []func(*Checker){ruleC06Ctor, ruleC06Sanitiser, ruleC06URLPath, ruleC06SubRaw, ruleC06FinalPattern, ruleC06Host, ruleC06Manifest, ruleC06Print},
+		Rules: []func(*Checker){ruleC06Ctor, ruleC06Sanitiser, ruleC06URLPath, ruleC06SubRaw, ruleC06FinalPattern, ruleC06Host, ruleC06CanonURL, ruleC06Manifest, ruleC06Print},
 		NotDecided: []string{
 			"the round trip itself: URL escaping, fragments, case folding, registry-address normalisation are facts about string contents",
 			"idempotence of printing for every accepted spelling",
@@ -626,6 +626,53 @@ func ruleC07Routes(c *Checker) {
 				}
 				c.check(allRoutes && len(p.callersOf(fn)) > 0, R, name, "user info rejected", pos, "every route tests u.User != nil", "route through "+why+" can build a RemotePackage from a URL with a user name or password")
 			}
+			// (5) the opaque form (scheme:rest) is refused: net/url keeps everything after the colon in
+			// Opaque, so User/Host/Path are empty and none of the rules above see what is in it
+			opaqueEmpty := func(f *ssa.Function) []Edge {
+				tE, fE := condEdges(f, func(v ssa.Value) bool {
+					bo, ok := v.(*ssa.BinOp)
+					if !ok || (bo.Op != token.NEQ && bo.Op != token.EQL) {
+						return false
+					}
+					if sv, ok := constString(bo.Y); !ok || sv != "" {
+						return false
+					}
+					ld, ok := bo.X.(*ssa.UnOp)
+					if !ok {
+						return false
+					}
+					fa, ok := ld.X.(*ssa.FieldAddr)
+					return ok && isURLField(fa) && fieldOf(fa).Name() == "Opaque"
+				})
+				var out []Edge
+				for _, e := range tE { // cond true: NEQ → non-empty, EQL → empty
+					if ifi, ok := e.From.Instrs[len(e.From.Instrs)-1].(*ssa.If); ok {
+						cnd, neg := stripNot(ifi.Cond)
+						if bo, ok := cnd.(*ssa.BinOp); ok && (bo.Op == token.EQL) != neg {
+							out = append(out, e)
+						}
+					}
+				}
+				for _, e := range fE {
+					if ifi, ok := e.From.Instrs[len(e.From.Instrs)-1].(*ssa.If); ok {
+						cnd, neg := stripNot(ifi.Cond)
+						if bo, ok := cnd.(*ssa.BinOp); ok && (bo.Op == token.NEQ) != neg {
+							out = append(out, e)
+						}
+					}
+				}
+				return out
+			}
+			okOpaque := guarded(st.Block(), opaqueEmpty(fn))
+			if !okOpaque && len(p.callersOf(fn)) > 0 {
+				okOpaque = true
+				for _, cs := range p.callersOf(fn) {
+					if !guarded(cs.Block(), opaqueEmpty(cs.Parent())) {
+						okOpaque = false
+					}
+				}
+			}
+			c.check(okOpaque, R, name, "opaque URL form refused", pos, "constructed only past a test that u.Opaque is empty", "a URL in the opaque form (https:user:secret@host/repo.git, or Opaque set by hand) reaches the constructor: its credentials, host and path are invisible to every rule applied here and are printed back as they are")
 		}
 	}
 	// query syntax gate on every route: PrepareURL reads the query through URL.Query(), which
